@@ -276,11 +276,11 @@ def run(chk):
     with tempfile.TemporaryDirectory() as tmp:
         shapes = []
         named = corpus.named_convex()
-        for name in list(named)[:6 if chk.tier == "quick" else len(named)]:
+        for name in list(named)[:6 if chk.bounded_tier == "quick" else len(named)]:
             for scale, off in ((1.0, (0, 0, 0)), (1e-6, (1e-6, -2e-6, 3e-6)), (1e6, (-3e6, 5e5, 1.5e6)), (1.0, (-7.25, 3.5, -0.125))):
                 pts = [[(c * scale) + o for c, o in zip(p, off)] for p in named[name]]
                 shapes.append((f"convex:{name}/x{scale:g}", cox.shapes.ConvexPolyhedron(pts)))
-        for name, cells in list(B2.voxel_solids().items())[:4 if chk.tier == "quick" else 8]:
+        for name, cells in list(B2.voxel_solids().items())[:4 if chk.bounded_tier == "quick" else 8]:
             verts, faces = B2.voxel_mesh(cells)
             shapes.append((f"voxel:{name}", cox.shapes.Polyhedron([[x - 1.5, y + 0.25, z - 0.5] for x, y, z in verts], faces)))
         for name in ("L", "comb"):
